@@ -45,7 +45,7 @@ REQUIRED_CLAUSES = [
     "percent-completed",
 ] + arith.CLAUSES
 REQUIRED_FEATURES = {
-    "e2e": 10, "e2e:multi-worker": 3, "e2e:two-bulk-tasks-in-parallel": 3, "e2e:throttled-batches-shared-source": 2,
+    "e2e": 10, "e2e:multi-worker": 3, "e2e:two-bulk-tasks-in-parallel": 3, "e2e:two-tasks-on-one-operation": 2, "e2e:throttled-batches-shared-source": 2,
     "quick": {
         "offset-table-seek": 10, "offset-table-exact-entry": 2, "big-skip-without-table": 2, "multi-byte": 50, "crlf": 50, "action-meta-data-file": 50, "generated-meta-data": 50,
         "multi-corpus": 30, "multi-file": 30, "colocated-clients": 100, "split-hosts": 30, "split-random": 30, "split-allocator": 10,
